@@ -29,7 +29,7 @@ def panel_values(panel):
     sign = panel.get('sign', [1] * len(panel['level']))[g]
     fg = f if sign > 0 else (200.0 - f) + 100.0
     v = lv * fg + am * np.asarray(panel['noise'][g], float) / 512.0 + pat
-    v = np.maximum(0, np.round(v * 1024)) / 1024
+    v = np.maximum(0, np.round(v * 1024)) / 1024 + float(panel.get('offset', 0))
     if panel.get('resp_int'):
       v = np.round(v)
     em = panel.get('early', [1] * len(panel['level']))[g]
@@ -52,7 +52,7 @@ def panel_values(panel):
 def panel_dates(panel):
   import pandas as pd
   step = 7 if panel['freq'] == 'W' else 1
-  base = pd.Timestamp('2018-01-01') + pd.Timedelta(days=int(panel['start']))
+  base = pd.Timestamp('2018-01-01') + pd.Timedelta(days=int(panel['start'])) + pd.Timedelta(hours=int(panel.get('hour', 0)))
   return [base + pd.Timedelta(days=step * i) for i in range(panel['n_dates'])]
 
 
@@ -402,6 +402,11 @@ class Space:
       return 'in'
     hi = 1 + Fraction(tol)
     r = Fraction(len(C), len(T))
+    d = hi.denominator
+    if d & (d - 1) or d > 2 ** 20 or hi > 2 ** 20:
+      # 1 + tol is not computed exactly in floats (tol = 1/3, 2/3, 0.2 ...): a size ratio on the boundary may go either way
+      if abs(r - hi) <= Fraction(1, 10 ** 9) * hi or abs(r - 1 / hi) <= Fraction(1, 10 ** 9) / hi:
+        return 'band'
     return 'in' if 1 / hi <= r <= hi else 'out'
 
   def check_volume(self, T, C):
@@ -504,7 +509,43 @@ def run_search(case, method, seed_numpy=True, history=None):
   if seed_numpy:
     np.random.seed(12345)
   try:
-    mm, par = build_mm(case)
+    if history == 'params-mutated':
+      # the caller builds the searcher with other (legal) values of the fields that are read at search time, lets it
+      # search once, then sets the fields to the values under test on the same parameter object
+      real = {k: case.kwargs.get(k) for k in ('n_designs', 'geo_ratio_tolerance', 'volume_ratio_tolerance',
+                                              'treatment_geos_range', 'control_geos_range')}
+      decoy = dict(case.kwargs)
+      decoy.update(n_designs=(7 if real['n_designs'] != 7 else 3),
+                   geo_ratio_tolerance=(None if real['geo_ratio_tolerance'] is not None else 0.5),
+                   volume_ratio_tolerance=(None if real['volume_ratio_tolerance'] is not None else 4.0),
+                   treatment_geos_range=(None if real['treatment_geos_range'] is not None else (1, 2)),
+                   control_geos_range=(None if real['control_geos_range'] is not None else (1, 2)))
+      c2 = Case()
+      c2.__dict__.update(case.__dict__)
+      c2.kwargs = decoy
+      mm, par = build_mm(c2)
+      try:
+        getattr(mm, method)()
+      except ValueError:
+        pass
+      for k, v in real.items():
+        setattr(par, k, v)
+    elif history == 'shared-eligibility':
+      # one GeoEligibility object serves two panels: first another panel (other volume ranking), then this one
+      from matched_markets.methodology import geoeligibility, tbrmmdata
+      par = tbrmmdesignparameters.TBRMMDesignParameters(**case.kwargs)
+      ge = geoeligibility.GeoEligibility(case.elig_df.copy()) if case.elig_df is not None else None
+      if ge is not None:
+        other = case.df.copy()
+        other[case.resp_col] = other[case.resp_col].to_numpy()[::-1].copy()
+        try:
+          mm0 = tbrmatchedmarkets.TBRMatchedMarkets(tbrmmdata.TBRMMData(other, case.resp_col, ge), par)
+          getattr(mm0, method)()
+        except ValueError:
+          pass
+      mm = tbrmatchedmarkets.TBRMatchedMarkets(tbrmmdata.TBRMMData(case.df.copy(), case.resp_col, ge), par)
+    else:
+      mm, par = build_mm(case)
     if history == 'reused-data':
       # the data object was used before by a searcher with the full window (same other parameters)
       data = mm.data
